@@ -52,7 +52,14 @@ pub enum OpK {
     /// a text that does not compile: add_program_str under the name `zz_bad` (never used,
     /// never inspected) or, `free`, Program::from_source without a context; the failure
     /// must not matter to anything that follows
-    AddBad { c: usize, src: String, free: bool },
+    AddBad {
+        c: usize,
+        src: String,
+        free: bool,
+        /// the failing add is made under the name of this stored program, which must survive
+        #[serde(default)]
+        over: Option<String>,
+    },
     NewB { b: usize },
     CloneB { from: usize, to: usize },
     Bind { b: usize, name: String, val: V },
@@ -294,6 +301,8 @@ fn to_json(v: &V) -> serde_json::Value {
 pub fn json_safe(v: &V) -> bool {
     match v {
         V::Int(_) | V::Bool(_) | V::Str(_) | V::Null => true,
+        // an unsigned value above the int range cannot come back as an int
+        V::UInt(u) => *u > i64::MAX as u64,
         // a finite double with a fractional part stays a double (an integral one may come
         // back as an int, which no statement settles)
         V::F(b) => {
@@ -423,14 +432,21 @@ fn client_main(keys: [u8; 16], ctxs: Ctxs, universe: Vec<String>, c09: bool, rx:
                     },
                     None => rep.skipped = true,
                 },
-                OpK::AddBad { c, src, free } => {
-                    let _ = std::panic::catch_unwind(std::panic::AssertUnwindSafe(|| {
+                OpK::AddBad { c, src, free, over } => {
+                    let r = std::panic::catch_unwind(std::panic::AssertUnwindSafe(|| {
                         if free {
-                            let _ = Program::from_source(&src);
+                            Program::from_source(&src).map(|_| ())
                         } else if let Some(x) = cs.get_mut(&c) {
-                            let _ = x.add_program_str("zz_bad", &src);
+                            x.add_program_str(over.as_deref().unwrap_or("zz_bad"), &src)
+                        } else {
+                            Err(rscel::CelError::misc("no such context"))
                         }
                     }));
+                    match r {
+                        Ok(Ok(())) => {}
+                        Ok(Err(e)) => rep.add_err = Some((Class::of(&e), e.to_string())),
+                        Err(_) => rep.add_err = Some((Class::Internal, "panic while compiling".into())),
+                    }
                 }
                 OpK::NewB { b } => {
                     binds.insert(b, BindContext::new());
@@ -896,8 +912,19 @@ pub fn run_case(prop: WorldProp, case: &WorldCase) -> RunResult {
                     break 'ops;
                 }
             }
-            OpK::AddBad { .. } => {
-                fire(&mut fired, "failed_compile");
+            OpK::AddBad { c, src, free, over } => {
+                if rep.add_err.is_some() {
+                    fire(&mut fired, "failed_compile");
+                    if over.is_some() {
+                        fire(&mut fired, "failed_compile_over_stored_program");
+                    }
+                } else if let (false, Some(name)) = (*free, over) {
+                    // the text compiled after all: an ordinary replace
+                    let bc = rep.ctxs.get(c).and_then(|m| m.get(name)).map(|x| x.1).unwrap_or(0);
+                    if let Some(mm) = model.ctxs.get_mut(c) {
+                        mm.insert(name.clone(), ProgSnap { src: src.clone(), add_ns: now_ns, bc });
+                    }
+                }
             }
             OpK::NewB { b } => {
                 model.binds.insert(*b, (op.t, BTreeMap::new()));
